@@ -59,7 +59,7 @@ def run(ctx):
         tp = os.path.join(ctx.scratch, "trace%02d.ndjson" % k)
         traces.append(tp)
         argvs.append([drv, "--cases", cp, "--out", tp, "--scratch", os.path.join(ctx.scratch, "node%02d" % k),
-                      "--inst", str(8 if quick else 6), "--salt", str(k)])
+                      "--inst", str(8 if quick else 12), "--salt", str(k)])
     outs = ctx.run_parallel(argvs)
     nev = sum(int(o.split("events=")[1].split()[0]) for o in outs)
     # 3. the acceptance predicate evaluated in TLA+ for every event
@@ -102,7 +102,7 @@ def run(ctx):
                 "damaged encodings (case, garbage, truncated, trailing), payloads signed for another chain or without EIP-155, "
                 "and every unauthenticated field; each instantiated %d times with fresh real keys and contents. "
                 "distinct_nontrivial: distinct (kind, height, mutated abstract transaction) other than the plain honest one"
-                % ("a seeded sample of the bit positions" if quick else "every bit position", 8 if quick else 6),
+                % ("a seeded sample of the bit positions" if quick else "every bit position", 8 if quick else 12),
         "samples": samples,
         "exhaustive": True,
         "states": gen["distinct"],
